@@ -125,15 +125,15 @@ theorem evalBag_zeroLin {β : Type} (z : Label → Rat) (f : β → Label) (l : 
   | nil => rfl
   | cons b t iht => simp only [List.map_cons, evalBag, PTerm.eval, iht]; grind
 
-theorem cqmInitBits_eval (z : Label → Rat) (vars : List (Label × VKind)) (bits : List (PTerm Label))
-    (h : cqmInitBits vars = .ok bits) : evalBag z bits = 0 := by
-  induction vars generalizing bits with
+theorem cqmInitBits_eval (z : Label → Rat) (taken : List Label) (vars : List (Label × VKind)) (bits : List (PTerm Label))
+    (h : cqmInitBits taken vars = .ok bits) : evalBag z bits = 0 := by
+  induction vars generalizing bits taken with
   | nil => simp only [cqmInitBits, Except.ok.injEq] at h; subst h; rfl
   | cons p r ih =>
     obtain ⟨v, k⟩ := p
     cases k with
-    | binary => exact ih bits h
-    | spin => exact ih bits h
+    | binary => exact ih taken bits h
+    | spin => exact ih taken bits h
     | integer lb ub =>
       simp only [cqmInitBits] at h
       split at h
@@ -143,11 +143,59 @@ theorem cqmInitBits_eval (z : Label → Rat) (vars : List (Label × VKind)) (bit
         · rename_i e he
           split at h
           · simp at h
-          · rename_i rest hrest
-            simp only [Except.ok.injEq] at h
-            subst h
-            rw [evalBag_append, ih rest hrest]
-            rw [evalBag_zeroLin z (fun b : Label × Nat => b.1) e]; grind
+          · split at h
+            · simp at h
+            · rename_i rest hrest
+              simp only [Except.ok.injEq] at h
+              subst h
+              rw [evalBag_append, ih _ rest hrest]
+              rw [evalBag_zeroLin z (fun b : Label × Nat => b.1) e]; grind
+
+/-- success of the initialisation means: no encoding bit of any integer variable is one of the labels to avoid -/
+theorem cqmInitBits_fresh (taken : List Label) (vars : List (Label × VKind)) (bits : List (PTerm Label))
+    (h : cqmInitBits taken vars = .ok bits) :
+    ∀ v lb ub e, (v, VKind.integer lb ub) ∈ vars → binaryEncoding v ub.toNat = some e → ∀ b ∈ e, b.1 ∉ taken := by
+  induction vars generalizing bits taken with
+  | nil => intro v lb ub e hm; simp at hm
+  | cons p r ih =>
+    obtain ⟨w, k⟩ := p
+    intro v lb ub e hm he b hb
+    have hcase : (v, VKind.integer lb ub) = (w, k) ∨ (v, VKind.integer lb ub) ∈ r := by simpa using hm
+    cases k with
+    | binary =>
+      rcases hcase with h1 | h1
+      · simp at h1
+      · exact ih taken bits h v lb ub e h1 he b hb
+    | spin =>
+      rcases hcase with h1 | h1
+      · simp at h1
+      · exact ih taken bits h v lb ub e h1 he b hb
+    | integer lb' ub' =>
+      simp only [cqmInitBits] at h
+      split at h
+      · simp at h
+      · split at h
+        · simp at h
+        · rename_i e' he'
+          split at h
+          · simp at h
+          · rename_i hany
+            split at h
+            · simp at h
+            · rename_i rest hrest
+              rcases hcase with h1 | h1
+              · simp only [Prod.mk.injEq, VKind.integer.injEq] at h1
+                obtain ⟨rfl, rfl, rfl⟩ := h1
+                rw [he] at he'
+                injection he' with he'
+                subst he'
+                intro hc
+                apply hany
+                simp only [List.any_eq_true]
+                exact ⟨b, hb, by simpa using hc⟩
+              · have := ih _ rest hrest v lb ub e h1 he b hb
+                intro hc
+                exact this (List.mem_append_left _ hc)
 
 theorem cqmInitVars_eval (z : Label → Rat) (vars : List (Label × VKind)) (init : List (PTerm Label))
     (h : cqmInitVars vars = .ok init) : evalBag z init = 0 := by
@@ -157,7 +205,7 @@ theorem cqmInitVars_eval (z : Label → Rat) (vars : List (Label × VKind)) (ini
   · rename_i bits hbits
     simp only [Except.ok.injEq] at h
     subst h
-    rw [evalBag_append, cqmInitBits_eval z vars bits hbits]
+    rw [evalBag_append, cqmInitBits_eval z _ vars bits hbits]
     rw [evalBag_zeroLin z (fun p : Label × VKind => p.1)]; grind
 
 /-- **`cqm_to_bqm`, decomposition**: at every 0/1 sample `z` the BQM's energy is the CQM objective at the
